@@ -134,3 +134,126 @@ def ber_semantic_variants(rng, mod, t, v, enc0, n):
             seen.add(b)
             out.append((fam, b))
     return out
+
+
+# ---------------------------------------------------------------------------------------------------------------------
+# XER: value-preserving rewritings of a BASIC/CANONICAL-XER document (X.693 8: white-space and comments between
+# elements, empty-element tags, white-space inside tags, XML prolog)
+import re as _re
+
+_TOK = _re.compile(rb"<[^<>]*>|[^<]+")
+_CTRL = set(b"nul soh stx etx eot enq ack bel bs vt ff so si dle dc1 dc2 dc3 dc4 nak syn etb can em sub esc is4 is3 is2 is1".split())
+
+
+def _kind(tok):
+    if not tok.startswith(b"<"):
+        return "text"
+    if tok.startswith(b"</"):
+        return "close"
+    if tok.endswith(b"/>"):
+        return "empty"
+    if tok.startswith(b"<?") or tok.startswith(b"<!"):
+        return "other"
+    return "open"
+
+
+def _name(tok):
+    return tok.strip(b"</> \t\r\n").split()[0] if tok.strip(b"</> \t\r\n") else b""
+
+
+def xer_gaps(toks):
+    """indices i such that white-space / a comment may be put between toks[i] and toks[i+1] without touching a value"""
+    out = []
+    for i in range(len(toks) - 1):
+        a, b = toks[i], toks[i + 1]
+        ka, kb = _kind(a), _kind(b)
+        if "text" in (ka, kb) or "other" in (ka, kb):
+            continue
+        if ka == "open" and kb == "close":
+            continue            # <x></x>: possibly an empty character string
+        if kb == "empty" or ka == "empty":
+            e = b if kb == "empty" else a
+            if _name(e) in _CTRL:
+                continue        # control-character elements live inside character data
+            # an empty element next to text on its other side is character data as well
+            j = i + 2 if kb == "empty" else i - 1
+            if 0 <= j < len(toks) and _kind(toks[j]) == "text":
+                continue
+        out.append(i)
+    return out
+
+
+def xer_variants(rng, xb, n):
+    """-> [(family, bytes)]"""
+    toks = _TOK.findall(xb)
+    if not toks or b"".join(toks) != xb:
+        return []
+    # only well-formed documents are rewritten (the library's XER of wide strings may contain raw '<', '>' and '&':
+    # a C01 finding, and nothing that could be rewritten safely)
+    for t_ in toks:
+        if t_.startswith(b"<"):
+            if not _re.match(rb"^</?[A-Za-z_][A-Za-z0-9_.-]*/?>$", t_):
+                return []
+        elif b">" in t_ or _re.search(rb"&(?!(amp|lt|gt|quot|apos|#[0-9]+|#x[0-9a-fA-F]+);)", t_):
+            return []
+    out = []
+    gaps = xer_gaps(toks)
+    WS = [b" ", b"\n", b"\t", b"\r\n", b"   ", b"\n\n    "]
+    for _ in range(n):
+        fam = rng.choice(["ws", "ws", "comment", "emptyform", "tagspace", "prolog", "mix"])
+        t = list(toks)
+        used = set()
+        if fam in ("ws", "mix") and gaps:
+            ins = {}
+            for g in rng.sample(gaps, max(1, min(len(gaps), rng.choice([1, 2, len(gaps)])))):
+                ins[g] = rng.choice(WS)
+            t = [x + ins.get(i, b"") for i, x in enumerate(t)]
+            used.add("ws")
+        if fam in ("comment", "mix") and gaps:
+            ins = {}
+            for g in rng.sample(gaps, min(len(gaps), rng.choice([1, 2]))):
+                ins[g] = rng.choice([b"<!-- c -->", b"<!---->", b" <!-- <x>1</x> -->\n", b"<!-- a --><!-- b -->"])
+            t = [x + ins.get(i, b"") for i, x in enumerate(t)]
+            used.add("comment")
+        if fam in ("emptyform", "mix"):
+            t2, i, done = [], 0, False
+            while i < len(t):
+                x = t[i]
+                k = _kind(toks[i]) if i < len(toks) else "text"
+                if k == "open" and i + 1 < len(toks) and _kind(toks[i + 1]) == "close" and x == toks[i] and rng.random() < 0.6:
+                    nm = _name(toks[i])
+                    t2.append(b"<" + nm + b"/>" + t[i + 1][len(toks[i + 1]):])
+                    i += 1
+                    done = True
+                else:
+                    t2.append(x)
+                i += 1
+            if done:
+                t = t2
+                used.add("emptyform")
+        if fam in ("tagspace", "mix"):
+            t2, done = [], False
+            for i, x in enumerate(t):
+                base = toks[i] if i < len(toks) and x.startswith(toks[i]) else None
+                if base is not None and _kind(base) in ("open", "close", "empty") and _name(base) not in _CTRL and rng.random() < 0.4:
+                    sp = rng.choice([b" ", b"\n", b"\t "])
+                    nb = base[:-2] + sp + b"/>" if base.endswith(b"/>") else base[:-1] + sp + b">"
+                    t2.append(nb + x[len(base):])
+                    done = True
+                else:
+                    t2.append(x)
+            if done:
+                t = t2
+                used.add("tagspace")
+        doc = b"".join(t)
+        if fam in ("prolog", "mix") and (fam == "prolog" or rng.random() < 0.3):
+            doc = rng.choice([b'<?xml version="1.0" encoding="UTF-8"?>\n', b'<?xml version="1.0"?>', b"<!-- lead -->\n", b"\n  "]) + doc
+            used.add("prolog")
+        if used and doc != xb:
+            out.append(("+".join(sorted(used)), doc))
+    seen, res = set(), []
+    for f, d in out:
+        if d not in seen:
+            seen.add(d)
+            res.append((f, d))
+    return res
